@@ -193,7 +193,24 @@ fn stack_case(sink: &mut Sink, idx: u64, kind: &str, prog: &Prog, specs: &[Layer
     }
     intern_begin();
     let out = run_stack(prog, specs);
-    stack_case_with(sink, idx, kind, prog, specs, out, None);
+    // variant execution (as in C05): every event the program emits as an explicit root is emitted with an
+    // explicit parent id that names a span the Registry has closed; "a root if there is none".  Only when
+    // the program has such an event and a closed span before it.
+    let has_root_event = prog.ops.iter().any(|(_, op)| matches!(op, Op::Event(_, ParentKind::Root, _)));
+    let other = if has_root_event && idx % 2 == 0 {
+        EXECUTOR.with(|e| e.set(exec_stale));
+        let out2 = run_stack(prog, specs);
+        EXECUTOR.with(|e| e.set(exec_collect));
+        sink.bump("stack:variant-run-with-stale-explicit-parents");
+        Some(out2)
+    } else {
+        None
+    };
+    stack_case_with(sink, idx, kind, prog, specs, out, other);
+}
+
+fn exec_stale(prog: &Prog) -> (ExecResult, Vec<u64>) {
+    base::exec_collect_with(prog, true)
 }
 
 /// the case for a stack run that has already happened; `other`: a second run of the same stack that
@@ -272,6 +289,13 @@ fn stack_case_with(sink: &mut Sink, idx: u64, kind: &str, prog: &Prog, specs: &[
 /// own under a watchdog: a callback that never returns (re-entering the layer under its own lock)
 /// shows as a missing storage.
 fn hostile_case(sink: &mut Sink, idx: u64, kind: &str, hostile: &Prog, quiet: &Prog, specs: &[LayerSpec]) {
+    hostile_case_expecting(sink, idx, kind, hostile, quiet, specs, None)
+}
+
+/// `max_panics`: `Some(n)` = at most `n` operations of the hostile run may be left by a panic (a layer that
+/// does not capture a span has no business rendering what is recorded on it); more than that is handed to
+/// the judge as a run that panicked.
+fn hostile_case_expecting(sink: &mut Sink, idx: u64, kind: &str, hostile: &Prog, quiet: &Prog, specs: &[LayerSpec], max_panics: Option<usize>) {
     if !sink.wants(idx) {
         return;
     }
@@ -279,7 +303,11 @@ fn hostile_case(sink: &mut Sink, idx: u64, kind: &str, hostile: &Prog, quiet: &P
     let (tx, rx) = std::sync::mpsc::channel();
     std::thread::spawn(move || {
         EXECUTOR.with(|e| e.set(exec_hostile));
-        let out = run_stack(&h, &sp);
+        let mut out = run_stack(&h, &sp);
+        let panics = base::HOSTILE_PANICS.with(|p| p.get());
+        if max_panics.is_some_and(|m| panics > m) {
+            out = StackOut { dumps: None, raws: out.raws, panicked: true, poisoned: out.poisoned };
+        }
         let _ = tx.send(out);
     });
     let out = rx.recv_timeout(std::time::Duration::from_secs(20)).ok();
@@ -313,6 +341,15 @@ fn hostile_cases(sink: &mut Sink, idx: &mut u64) {
             hostile_case(sink, *idx, &format!("hostile-{name}"), hostile, quiet, &specs);
             *idx += 1;
         }
+    }
+    // panicking values recorded on a span the layer filtered out
+    let (hostile, quiet) = base::hostile_filtered_scenario();
+    for specs in [
+        vec![LayerSpec::Capture(FilterSpec::Level(Some(TracingLevel::Info)))],
+        vec![LayerSpec::Pass(PassKind::Plain), LayerSpec::Capture(FilterSpec::Level(Some(TracingLevel::Warn))), LayerSpec::Capture(FilterSpec::Level(Some(TracingLevel::Info)))],
+    ] {
+        hostile_case_expecting(sink, *idx, "hostile-bomb-recorded-on-a-filtered-span", &hostile, &quiet, &specs, Some(0));
+        *idx += 1;
     }
 }
 
